@@ -381,3 +381,41 @@ func H_C12_symlink() {
 	vxrt.Assert(len(t.errors) == 0 && len(t.logs) == 2, "C12:behaviour-depends-only-on-options")
 	vxrt.Assert(vxReadFile(realDir+"/new/__snapshots__/f.snap") == vxFrame("TestT - 1", "one")+vxFrame("TestT - 2", "two"), "C12:location-depends-only-on-options")
 }
+
+// H_C12_twins: Configs built from option lists that differ only in the JSON option (none, i.e.
+// the defaults, against an explicit zero JSONConfig: no sorting, no indent) are independent
+// objects: each formats with its own options, whichever was built first and whatever else was
+// built before with the same directory.
+func H_C12_twins() {
+	vxrt.CI(false)
+	vxrt.EnvFixed("NO_COLOR", "1")
+	base := vxrt.Dir()
+	d1, d2 := base+"/one", base+"/two"
+	var a, b, refA, refB *Config
+	if vxrt.Bool("defaults-built-first") {
+		a = WithConfig(Dir(d1))
+		b = WithConfig(Dir(d1), JSON(JSONConfig{}))
+		refB = WithConfig(Dir(d2), JSON(JSONConfig{}))
+		refA = WithConfig(Dir(d2))
+	} else {
+		b = WithConfig(Dir(d1), JSON(JSONConfig{}))
+		a = WithConfig(Dir(d1))
+		refA = WithConfig(Dir(d2))
+		refB = WithConfig(Dir(d2), JSON(JSONConfig{}))
+	}
+	vxrt.Assert(a != b && refA != refB, "C12:configs-are-independent-objects")
+	doc := `{"b":1,"a":{"d":2,"c":3}}`
+	for _, c := range []*Config{a, refA} {
+		t := vxNewT("TestA")
+		c.MatchStandaloneJSON(t, doc)
+		t.end()
+	}
+	for _, c := range []*Config{b, refB} {
+		t := vxNewT("TestB")
+		c.MatchStandaloneJSON(t, doc)
+		t.end()
+	}
+	sorted := "{\n \"a\": {\n  \"c\": 3,\n  \"d\": 2\n },\n \"b\": 1\n}"
+	vxrt.Assert(vxReadFile(d1+"/TestA_1.snap.json") == sorted && vxReadFile(d2+"/TestA_1.snap.json") == sorted, "C12:behaviour-depends-only-on-options")
+	vxrt.Assert(vxReadFile(d1+"/TestB_1.snap.json") == vxReadFile(d2+"/TestB_1.snap.json") && vxReadFile(d1+"/TestB_1.snap.json") != sorted, "C12:behaviour-depends-only-on-options")
+}
